@@ -94,8 +94,10 @@ class GuardIR:
             for child in self.children:
                 out.extend(child.leaf_names())
             return tuple(out)
-        # 📝 A childless composite operator has nothing to implement.
-        if self.type in _COMPOSITE_OPERATORS:
+        # 📝 A childless composite operator has nothing to implement, and
+        #    `stateIn` is evaluated by the engine: a stub named `stateIn`
+        #    would take precedence over it and change the guard's meaning.
+        if self.type in _COMPOSITE_OPERATORS or self.type == "stateIn":
             return ()
         return (self.type,)
 
@@ -279,17 +281,37 @@ def parse_guard(raw: Any) -> Optional[GuardIR]:
 
     params = raw.get("params")
     children: List[GuardIR] = []
+    # 🔍 Composite guards nest their operands under `children`,
+    #    `params.guards`, `params.children` or (for `not`) `params.guard` —
+    #    the same spellings, in the same order, the engine's
+    #    `GuardDefinition` accepts. Reading `params.guards` alone turned
+    #    every other spelling into a bare, operand-less `and`/`or`/`not`.
+    operands: Any = None
+    if guard_type in _COMPOSITE_OPERATORS:
+        operands = raw.get("children")
+        if not operands and isinstance(params, dict):
+            operands = (
+                params.get("guards")
+                or params.get("children")
+                or params.get("guard")
+            )
+    for nested in _as_list(operands):
+        parsed = parse_guard(nested)
+        if parsed is not None:
+            children.append(parsed)
+
+    own_params: Optional[Dict[str, Any]] = None
     if isinstance(params, dict):
-        # 🔍 Composite guards nest their operands under params.guards.
-        for nested in _as_list(params.get("guards")):
-            parsed = parse_guard(nested)
-            if parsed is not None:
-                children.append(parsed)
+        own_params = {
+            k: v
+            for k, v in params.items()
+            if not (children and k in ("guards", "children", "guard"))
+        } or None
 
     return GuardIR(
         type=guard_type,
         children=tuple(children),
-        params=params if isinstance(params, dict) else None,
+        params=own_params,
     )
 
 
